@@ -5,6 +5,7 @@ CONSTANTS
 INVARIANT EncodingWellFormed
 INVARIANT EncodingValid
 INVARIANT EncodingDecodes
+INVARIANT EncodingAccepted
 INVARIANT ParseTotal
 INVARIANT ParseAgrees
 INVARIANT ParseComplete
